@@ -40,6 +40,7 @@ type Prog struct {
 	extImpure  map[*ssa.Function]bool            // calls (transitively) an external function that is not in the effect-free table
 
 	noExpand    map[*ssa.Function]bool // functions whose (value, error) results keep their call atoms
+	nonNilPtr   types.Type             // anchors: *NodeGroupState — parameters and scaleOpts fields of this type are never nil (reviewed)
 	keepCalls   map[*ssa.Function]bool // anchors: their calls are never replaced by the returned expression (nil until anchors are resolved)
 	implCache   map[string][]*ssa.Function
 	tagLabel    string
@@ -195,7 +196,15 @@ func loadProg(dir string, tags string, extraEnv []string) (*Prog, error) {
 		}
 		return okv
 	}
-	readOnlyHook = func(f *ssa.Function) bool { return strictPure(f, 0) }
+	readOnlyHook = func(f *ssa.Function) bool {
+		if strictPure(f, 0) {
+			return true
+		}
+		// the reading methods of resource.Quantity leave the quantity's value as it is (String only
+		// fills its cache): a local quantity whose address is their receiver stays under the
+		// function's own control
+		return pkgPathOfFn(f) == "k8s.io/apimachinery/pkg/api/resource" && pureExternal(f)
+	}
 	finfoCache = map[*ssa.Function]*funcInfo{}
 	return p, nil
 }
